@@ -142,6 +142,11 @@ structure Config where
   turnFail : Nat := 0
   relayRewrite : Rewrite := .none
   srflxRewrite : Rewrite := .none
+  /-- a srflx rule PINNED to the local wildcard address `0.0.0.0` (`Local: "0.0.0.0"`): (replace mode?,
+  external addresses in order). External addresses of a pinned rule map to that local address
+  regardless of their family; link-local IPv6 externals are turned away by the location filter.
+  Used instead of `srflxRewrite` (which stays `.none`). -/
+  srflxPinned : Option (Bool × List Addr) := none
   /-- the fake UDP mux parks `GetListenAddresses` until `release` -/
   hold : Bool := false
   /-- which of the findings C18-G1 … G5 (numbered 1–5) the code under test still HAS (detected by canary sessions of the
@@ -154,6 +159,14 @@ def Config.has (cfg : Config) (q : Nat) : Bool := cfg.quirks.contains q
 /-- `nm` is not an address: it never occurs in an interface table or as a mux listen address -/
 def realAddrs (cfg : Config) (ifs : List Iface) : Bool :=
   (ifs.all fun i => i.addrs.all (fun a => a.cls != .nm)) && ((cfg.udpMux.getD []).all (fun a => a.cls != .nm))
+
+/-- the external addresses of a pinned srflx rule are, by class, external or link-local addresses (the
+code publishes whatever literal address the rule names: a site-local or IPv4-compatible external is
+published as it is — finding candidate C18-G7, notes/C18.md) -/
+def pinnedExtOk (cfg : Config) : Bool :=
+  match cfg.srflxPinned with
+  | none => true
+  | some (_, exts) => exts.all fun e => e.cls == .x4 || e.cls == .x6 || e.cls == .k6
 
 def allNetTypes : List NetType := [.udp4, .udp6, .tcp4, .tcp6]
 
@@ -276,6 +289,7 @@ def udpTypes (nts : List NetType) : List NetType := nts.filter (fun t => !t.isTC
 /-- `replaceSrflx`: a replace-mode srflx rule suppresses STUN gathering -/
 def srflxReplaced (cfg : Config) : Bool :=
   cfg.srflxRewrite == .drop || cfg.srflxRewrite == .rep || cfg.srflxRewrite == .rep2
+  || (cfg.srflxPinned.map (·.1)).getD false
 
 /-- units of `gatherCandidatesSrflx` (own sockets) -/
 def srflxUnits (cfg : Config) (ifs : List Iface) : List GUnit :=
@@ -299,6 +313,11 @@ def srflxMuxUnits (cfg : Config) : List GUnit :=
 /-- mapped addresses of `resolveSrflxAddresses` for local address `l`: the rules of the harness are
 IPv4 catch-alls, an IPv6 local address is not matched and is kept as is. -/
 def srflxMappedAddrs (cfg : Config) (l : Addr) : Option (List Addr) :=
+  match cfg.srflxPinned with
+  | some (_, exts) =>
+    -- explicit `Local` match wins; any other local address is not matched and is kept as is
+    if l == unspec false && !exts.isEmpty then some exts else some [l]
+  | none =>
   if l.cls.is6 then some [l] else
   match cfg.srflxRewrite with
   | .none => some [l]
@@ -309,7 +328,7 @@ def srflxMappedAddrs (cfg : Config) (l : Addr) : Option (List Addr) :=
 /-- units of `gatherCandidatesSrflxMapped`: the wildcard address of each UDP network type, or (G4) with
 filters installed every accepted local address of the family -/
 def srflxMappedUnits (cfg : Config) (ifs : List Iface) : List GUnit :=
-  if cfg.srflxRewrite == .none then [] else
+  if cfg.srflxRewrite == .none && cfg.srflxPinned.isNone then [] else
   let nts := configured cfg.netTypes
   (udpTypes nts).flatMap fun nt =>
     let binds := if useFilteredLocalAddrs cfg && !cfg.has 4
@@ -370,7 +389,9 @@ def unitCand (cfg : Config) (u : GUnit) (ci : Nat) (m : Nat) : CandD :=
   | .srflxMux => { ty := .srflx, net := u.net, addr := ⟨if u.net.is6 then .x6 else .x4, m⟩, pflag := .M,
                    base := some u.bind }
   | .srflxMapped =>
-    { ty := .srflx, net := u.net, addr := (((srflxMappedAddrs cfg u.bind).getD [])[ci]?).getD u.bind,
+    -- `determineNetworkType(network, mappedIP)`: the family is the mapped address's
+    { ty := .srflx, net := NetType.ofTransport false ((((srflxMappedAddrs cfg u.bind).getD [])[ci]?).getD u.bind).cls.is6,
+      addr := (((srflxMappedAddrs cfg u.bind).getD [])[ci]?).getD u.bind,
       pflag := pf, base := some u.bind }
   | .relay => { ty := .relay, net := .udp4, addr := (((relayAddrs cfg m).getD [])[ci]?).getD ⟨.r4, m⟩,
                 pflag := .na, base := some u.bind }
@@ -382,11 +403,14 @@ def allUnits (cfg : Config) (ifs : List Iface) : List GUnit :=
   ++ (if cfg.candTypes.contains .relay then relayUnits cfg ifs else [])
 
 /-- guards on the way to `addCandidate` that do not depend on the schedule: G3 (a relay candidate of a
-disabled network type is refused), and the location filter on mapped / relayed addresses (the `filter`
-step of the unit's program has already turned such an address away) -/
+disabled network type is refused), the location filter on mapped / relayed addresses and the network-type
+test on mapped addresses (the `filter` / `netType` steps of the unit's program have already turned such
+an address away) -/
 def publishable (cfg : Config) (d : CandD) : Bool :=
   (d.ty != .relay || (configured cfg.netTypes).contains d.net || cfg.has 3)
   && (d.ty == .host || !d.addr.cls.isLinkLocal6)
+  -- a server reflexive candidate of a disabled network type is turned away (`netType` step, C18-G6 fix)
+  && (d.ty != .srflx || (configured cfg.netTypes).contains d.net)
 
 /-! ## 3. The gathering-cycle state machine
 
@@ -532,6 +556,7 @@ inductive Lbl where
   | allocate     -- client.Allocate
   | filter       -- shouldFilterLocationTracked on a mapped / relayed address
   | addrs        -- resolveSrflxAddresses / resolveRelayAddresses
+  | netType      -- networkTypeEnabled(networkTypes, c.NetworkType()) on a mapped address (C18-G6 fix)
   deriving DecidableEq, Repr, Inhabited
 
 /-- A gatherer as a program over resources.  Slots are numbered in order of acquisition. -/
@@ -678,7 +703,9 @@ def mappedLoop : (i k : Nat) → Prog
     let body : Prog :=
       .step .filter
         (.step .newCand
-          (.addCand i [i] (mappedLoop (i + 1) k) (.release i (mappedLoop (i + 1) k)))
+          (.step .netType
+            (.addCand i [i] (mappedLoop (i + 1) k) (.release i (mappedLoop (i + 1) k)))
+            (.release i (mappedLoop (i + 1) k)))
           (.release i (mappedLoop (i + 1) k)))
         (.release i (mappedLoop (i + 1) k))
     if i == 0 then body else .acquire .listen .sock body .ret
@@ -850,6 +877,13 @@ def stepAns (s : MState) (j : Job) (l : Lbl) : Option Bool :=
     match j.unit.kind with
     | .srflxMapped =>
       some !((((srflxMappedAddrs s.cfg j.unit.bind).getD [])[j.slots.length - 1]?).map (·.cls.isLinkLocal6)).getD false
+    | _ => some true
+  | .netType =>
+    -- the candidate's network type follows the family of the mapped address; a disabled one releases the
+    -- socket of this iteration (C18-G6 fix)
+    match j.unit.kind with
+    | .srflxMapped =>
+      some ((configured s.cfg.netTypes).contains (unitCand s.cfg j.unit (j.slots.length - 1) j.m).net)
     | _ => some true
   | _ => some true
 
